@@ -45,7 +45,8 @@
      b x b block whose column 0 is the vector and whose other columns are zero ([blk_col]).
      +, -, unary -, and LEFT multiplication by a block or an embedded scalar preserve this shape
      and act on column 0 as the C++ operation on static_matrix<T,b,1> does
-     (BlockRelaxProofs.v: blk_col_add / blk_col_sub / blk_col_mul).
+     (NcRingBlock.v: is_col_add / is_col_sub / is_col_neg / is_col_mul_l, blk_add_col / blk_sub_col / blk_mul_col;
+     Properties_C06.C06_nc_vector_entries_closed).
      Checked against the C++ for every smoother covered by the C06 tie:
        backend::residual   res[i] = rhs[i] - sum_j A_ij * x[j]        left products only
        backend::vmul       z[i] = a * M[i] * y[i] + b * z[i]           (a I) * M_i * y_i, left
@@ -56,8 +57,8 @@
                            are scalar_type: computed from scalar c, d only)
      No smoother multiplies a vector entry from the right, takes its norm or its adjoint.
      (Krylov solvers do take inner products / norms of vectors: not covered by this embedding.)
-   Definitions only (plus the four length facts the carrier needs); algebra: NcRing.v,
-   BlockRelaxProofs*.v. *)
+   Definitions only (plus the length facts the carrier needs); algebra: NcRing.v, NcRingBlock.v,
+   NcRingBlockInv.v, BlockRelaxProofs*.v, BlockIlu0Exact.v, BlockIluClosed.v. *)
 From Amgcl Require Import Scalar Vec DirectUtil Inverse StaticMat.
 Local Open Scope S_scope.
 Local Open Scope nat_scope.
